@@ -634,6 +634,122 @@ def eval_nonstrict(ctx, R, vs0, top0, primes):
     return True
 
 
+def eval_less_than(ctx, R, fn, primes):
+    """find_unconstrained_less_than by evaluation: the two collectors are replaced by a prepared list of component
+    inputs (LessThan / Num2Bits with a size whose value is unknown, a boolean, or the constant k); a report must be
+    issued exactly for the values that feed a LessThan and have no Num2Bits(k) with 2^k - 1 <= p/2, for k in 0..300
+    and every curve.  Returns True when decided."""
+    import passeval
+    from finfun import NONE, S, Unsupported
+    from passeval import O, Panic, Sink, V
+
+    try:
+        w = passeval.PassWorld([LT], LT)
+    except Exception:  # noqa: BLE001
+        return False
+    if "update_inputs" not in w.free or "update_components" not in w.free or "ConstraintData" not in w.struct_fields:
+        return False
+    w.lenient_opaque = True
+    sizes_cache = {}
+
+    def size(k):
+        if k not in sizes_cache:
+            val = NONE if k is None else S("Some", V("ValueReduction", "Boolean", value=True) if k == "bool" else V("ValueReduction", "FieldElement", value=k))
+            sizes_cache[k] = ("O", "size:%s" % k, (("value", val), ("meta", O("size-meta")), ("clone", ("PY", (lambda k=k: sizes_cache[k])))))
+        return sizes_cache[k]
+
+    vals = {}
+
+    def value(x):
+        if x not in vals:
+            vals[x] = ("O", "value:" + x, (("meta", O("meta-of-" + x)), ("clone", ("PY", (lambda x=x: vals[x])))))
+        return vals[x]
+
+    def LTi(x):
+        return V("ComponentInput", "LessThan", value=value(x))
+
+    def N2B(x, k):
+        return V("ComponentInput", "Num2Bits", value=value(x), bit_size=size(k))
+
+    state = {}
+    w.stubs["update_components"] = lambda args: ("T", ())
+
+    def update_inputs(args):
+        sinks = [a for a in args if isinstance(a, Sink)]
+        if len(sinks) != 1:
+            raise Unsupported("update_inputs without one collection argument")
+        if not state["fed"]:
+            state["fed"] = True
+            sinks[0].items.extend(state["inputs"])
+        return ("T", ())
+
+    w.stubs["update_inputs"] = update_inputs
+    w.stubs["build_report"] = lambda args: ("K", "build_report", tuple(args))
+    stmt = O("stmt")
+    block = ("O", "block", (("iter", ("L", (stmt,))),))
+    first_bad = {}
+    n = 0
+
+    def run(bits, inputs, want, tag):
+        nonlocal n
+        state["inputs"], state["fed"] = inputs, False
+        consts = O("constants", prime_size=bits)
+        cfg = ("O", "cfg", (("iter", ("L", (block,))), ("constants", consts), ("name", "t")))
+        w.opaque = (("BigInt::", lambda name, args: args[0] if name == "from" and len(args) == 1 and isinstance(args[0], int) else ("K", "BigInt::" + name, tuple(args))),)
+        try:
+            res = w.call_fn(fn, [cfg])
+        except Panic as p_:
+            first_bad.setdefault("panics", "%s: %s" % (tag, p_))
+            return
+        n += 1
+        items = res.items if isinstance(res, Sink) else None
+        if items is None:
+            raise Unsupported("the pass returns %r" % (res,))
+        got = []
+        for g in items:
+            if not (isinstance(g, tuple) and g[0] == "K" and g[1] == "build_report" and g[2]):
+                raise Unsupported("a report built some other way: %r" % (g,))
+            got.append([k_ for k_, v_ in vals.items() if g[2][0] is v_])
+        gotn = sorted(x[0] for x in got if x)
+        if len(gotn) != len(got) or gotn != sorted(want):
+            kind = "missing" if set(want) - set(gotn) else "spurious"
+            first_bad.setdefault(kind, "%s: reports for %s, expected %s" % (tag, gotn, sorted(want)))
+
+    try:
+        for curve, pr in sorted(primes.items()):
+            bits = pr.bit_length()
+            bad_k = []
+            for k in range(0, 301):
+                before = dict(first_bad)
+                safe = 2 ** k - 1 <= pr // 2
+                run(bits, [LTi("a"), N2B("a", k)], [] if safe else ["a"], "%s: LessThan input also fed to Num2Bits(%d)" % (curve, k))
+                if first_bad != before:
+                    bad_k.append(k)
+            ctx.check(R, "find_unconstrained_less_than/threshold/" + curve, not bad_k, "sizes k for which the outcome differs from (2^k-1 <= p/2): %s" % bad_k[:6] if bad_k else "report suppressed exactly for k with 2^k-1 <= p/2, k in 0..300", site(LT, fn))
+        bits = sorted(primes.items())[0][1].bit_length()
+        run(bits, [LTi("a")], ["a"], "LessThan input only")
+        run(bits, [N2B("a", 8)], [], "Num2Bits input only")
+        run(bits, [N2B("a", 400)], [], "Num2Bits input only (too wide)")
+        run(bits, [LTi("a"), N2B("b", 8)], ["a"], "LessThan(a), Num2Bits(8) of another value")
+        run(bits, [LTi("a"), N2B("a", None)], ["a"], "size not known")
+        run(bits, [LTi("a"), N2B("a", "bool")], ["a"], "size known to be a boolean")
+        run(bits, [LTi("a"), N2B("a", 400), N2B("a", 8)], [], "two Num2Bits, the second narrow enough")
+        run(bits, [LTi("a"), N2B("a", 8), N2B("a", 400)], [], "two Num2Bits, the first narrow enough")
+        run(bits, [LTi("a"), N2B("a", 400), N2B("a", None)], ["a"], "two Num2Bits, none narrow enough")
+        run(bits, [LTi("a"), LTi("b"), N2B("b", 8)], ["a"], "two LessThan inputs, one range-checked")
+        run(bits, [LTi("a"), LTi("b"), LTi("a")], ["a", "b"], "an input used twice is reported once per value")
+        run(bits, [N2B("b", 8), LTi("b"), LTi("a"), N2B("c", 8)], ["a"], "range check recorded before the LessThan")
+        run(bits, [], [], "no inputs")
+    except Unsupported as u:
+        ctx.note("find_unconstrained_less_than is outside the evaluator's subset (%s): shape obligations apply" % u)
+        return False
+    ctx.floor(R, "input worlds evaluated (less-than)", n, 600)
+    ctx.check(R, "find_unconstrained_less_than/table/no-panic", "panics" not in first_bad, first_bad.get("panics", "no world makes the pass panic"), site(LT, fn))
+    ctx.check(R, "find_unconstrained_less_than/table/every-unchecked-input-reported", "missing" not in first_bad, first_bad.get("missing", "a LessThan input without a narrow enough Num2Bits on the same value is reported"), site(LT, fn))
+    ctx.check(R, "find_unconstrained_less_than/table/nothing-else-reported", "spurious" not in first_bad, first_bad.get("spurious", "no report for values that feed no LessThan or are range-checked"), site(LT, fn))
+    return True
+
+
 def rule_thresholds(ctx, primes):
     R = "C11.3"
     ctx.rule(R, "Num2Bits/Bits2Num(n) is not flagged iff n is a known constant < 254 and only under BN254; a LessThan input is range-checked iff 2^k-1 <= p/2 (decided for k in 0..300 per curve from the extracted primes)")
@@ -713,6 +829,8 @@ def rule_thresholds(ctx, primes):
     fn = find_fn(LT, "find_unconstrained_less_than")
     if fn is None:
         return ctx.missing(R, "find_unconstrained_less_than")
+    if eval_less_than(ctx, R, fn, primes):
+        return rule_lt_recognisers(ctx, R)
     fn, _m = alpha.canon_fields(fn, [("value", "FieldElement", "value")], [("cfg", "param", 0)])
     pushes = [p for p in method_calls(fn["body"], "push") if render(strip(p["recv"])) == "reports"]
     if len(pushes) != 1:
@@ -795,6 +913,11 @@ def rule_thresholds(ctx, primes):
                 ctx.check(R, "find_unconstrained_less_than/threshold/" + curve, not bad_k, detail + " ; k where (k <= %d*%d%+d) differs from (2^k-1 <= p/2): %s" % (a, bits, c, bad_k[:6]), site(LT, s_))
         else:
             ctx.bad(R, "find_unconstrained_less_than/threshold", detail + " ; other conditions %s" % others, site(LT, s_))
+    rule_lt_recognisers(ctx, R)
+
+
+def rule_lt_recognisers(ctx, R):
+    import alpha
     # the component recognisers: LessThan / Num2Bits with one argument, input signal `in`
     uc = find_fn(LT, "update_components")
     ui = find_fn(LT, "update_inputs")
@@ -982,3 +1105,6 @@ def run(ctx):
     primes = rule_primes(ctx) or {}
     rule_thresholds(ctx, primes)
     rule_fromstr(ctx)
+    import procstate
+
+    procstate.rule(ctx, "C11.5", "the table consulted for a definition is the one of that definition's curve: no pass keeps process-wide state (a memoised table would be the one of the first curve analysed) - no `static mut`, no static with interior mutability, no thread_local! / lazy_static! in hand-written non-test code")
